@@ -70,6 +70,14 @@ func (g *genC15) Block(w *World, b int) Block {
 			steps = append(steps, txStep(mkOp("bank_send", g.nProv+1).withN("to", int64(p)).withN("amt", rng.Pick64(1, 1000, 10_000_000_000, 10_000_000_000_000))))
 		}
 	}
+	for i := range steps {
+		if steps[i].Kind == "tx" && rng.Chance(1, 20) {
+			if steps[i].N == nil {
+				steps[i].N = map[string]int64{}
+			}
+			steps[i].N["upper"] = 1 // the same account, spelled in upper case
+		}
+	}
 	blk.Steps = g.net.Apply(rng, b, len(w.nodes), steps)
 	return blk
 }
@@ -153,7 +161,7 @@ func (o *oracleC15) AfterStep(w *World, st *Step, msgs []sdk.Msg, res *abci.Resp
 		if st.Fault == "" && st.Gas == 0 && len(msgs) == 1 && st.Kind == "tx" {
 			switch m := msgs[0].(type) {
 			case *storagetypes.MsgInitProvider:
-				if !o.pre.provs[m.Creator] && o.pre.bal.Of(m.Creator, denom).GTE(sdk.NewInt(o.pre.price)) {
+				if !o.pre.provs[m.Creator] && o.pre.bal.Of(canonAddr(m.Creator), denom).GTE(sdk.NewInt(o.pre.price)) {
 					w.Violate("C15:legal-init-rejected", "init by %s with sufficient funds and no provider record failed: %s", m.Creator, res.Log)
 				}
 			case *storagetypes.MsgShutdownProvider:
@@ -190,11 +198,11 @@ func (o *oracleC15) AfterStep(w *World, st *Step, msgs []sdk.Msg, res *abci.Resp
 				return
 			}
 			p := sdk.NewInt(o.pre.price)
-			if balOf(m.Creator).LT(p) {
+			if balOf(canonAddr(m.Creator)).LT(p) {
 				w.Violate("C15:init-debit≠price", "init by %s succeeded with balance %s below price %s", m.Creator, balOf(m.Creator), p)
 				return
 			}
-			add(m.Creator, p.Neg())
+			add(canonAddr(m.Creator), p.Neg())
 			add(addrCollateral, p)
 			recs[m.Creator] = o.pre.price
 			provs[m.Creator] = true
@@ -205,7 +213,7 @@ func (o *oracleC15) AfterStep(w *World, st *Step, msgs []sdk.Msg, res *abci.Resp
 				return
 			}
 			if amt, ok := recs[m.Creator]; ok {
-				add(m.Creator, sdk.NewInt(amt))
+				add(canonAddr(m.Creator), sdk.NewInt(amt))
 				add(addrCollateral, sdk.NewInt(amt).Neg())
 				if amt != o.pre.price {
 					w.Probe("refund_after_price_change")
